@@ -22,11 +22,15 @@ import coqlit as L
 
 ID = "C04"
 COQ_PROPERTY_FILE = "Properties/C04.v"
-COQ_DEPS = ["Common/ListX.v", "Model/Activation.v", "Proofs/ActivationProofs.v"]
+COQ_DEPS = ["Common/ListX.v", "Generated/Tables.v", "Model/Activation.v", "Model/ActivationCode.v",
+            "Proofs/ActivationProofs.v", "Proofs/ActivationBridge.v"]
 COQ_IMPORTS = "From Mesa Require Import Model.Activation."
 COQ_CASE_TYPE = "case"
 COQ_RUN = "run_case"
-TABLE_CONSTRUCTS = []
+TABLE_CONSTRUCTS = ["agentset_do_code", "agentset_shuffle_do_code", "agentset_map_code", "groupby_do_code", "groupby_map_code",
+                    "groupby_count_agg_skeleton",
+                    # extracted by harness/tables/registry.py (C02 builder), reused here
+                    "agent_first_id", "deregister_order", "register_order", "remove_suppresses_keyerror"]
 ENUM_ALWAYS = False
 RULE = ("histories = one Model; top-level creation/removal/reference keeping of agents of 3 classes, program-made "
         "AgentSets in arbitrary order, then 1-4 activations (do/shuffle_do/map by method name or callable, on "
@@ -39,6 +43,10 @@ RULE = ("histories = one Model; top-level creation/removal/reference keeping of 
 TRUSTED_BASE = [
     "Coq 8.16.1 kernel (coqc); vm_compute used for the non-vacuity examples and for evaluating the model in the correspondence",
     "no axioms: Print Assumptions reports 'Closed under the global context' for every C04 theorem",
+    "harness/tables/activation_code.py + harness/pyexpr.py (T1, code level): AgentSet.do/shuffle_do/map and GroupBy.do/map are "
+    "re-translated from the working tree on every run into act_fn records (branch condition and liveness guard as boolean functions, "
+    "iterated source, call form, argument forwarding, return); harness/tables/registry.py supplies the statement orders of "
+    "register_agent/deregister_agent",
     "harness/props/C04.py driver+observer and the Gallina literal printer (T2, differential testing, not a proof)",
     "Model/Activation.v is a hand transcription of AgentSet.do/shuffle_do/map, GroupBy.do/map, Agent.__init__/remove, "
     "Model.register_agent/deregister_agent; CPython reference counting and WeakKeyDictionary are modelled "
@@ -241,8 +249,8 @@ def gen_cases(rng, tier):
     # every one-act script over sets of size <= 2 (3 thorough), all kinds
     cases += list(_exhaustive(3 if tier == "quick" else 4, KINDS, True))
     nest = list(_nested_sweep())
-    cases += nest if tier != "quick" else nest[::3]
-    n = 1500 if tier == "quick" else 15000
+    cases += nest if tier != "quick" else nest[::4]
+    n = 1100 if tier == "quick" else 15000
     for i in range(n):
         cases.append(_rand_case(rng, big=(i % 5 == 0)))
     return cases
